@@ -2015,7 +2015,10 @@ class Point:
     def __init__(self, x, y=None):
         if x is not None and y is None:
             if isinstance(x, str):
-                string_x, string_y = REGEX_COORD_PAIR.findall(x)[0]
+                pairs = REGEX_COORD_PAIR.findall(x)
+                if len(pairs) == 0:
+                    raise ValueError("Invalid point: %s" % x)
+                string_x, string_y = pairs[0]
                 self.x = float(string_x)
                 self.y = float(string_y)
                 return
